@@ -77,13 +77,30 @@ func c12R12(c *Ctx, r *Report) {
 	n := 0
 	for _, ci := range callsIn(fn, "net/http.Error") {
 		n++
+		reach := blockReach(fn)
+		after := func(b *ssa.BasicBlock) bool { return b == ci.Block() || reach[ci.Block()][b] }
+		// mayBeFalse: v can be false at a point that lies behind the error response (merged results are judged per incoming edge)
+		var mayBeFalse func(v ssa.Value, d int) bool
+		mayBeFalse = func(v ssa.Value, d int) bool {
+			if b, isC := constBool(v); isC {
+				return !b
+			}
+			if ph, ok := v.(*ssa.Phi); ok && d < 6 {
+				for i, e := range ph.Edges {
+					if after(ph.Block().Preds[i]) && mayBeFalse(e, d+1) {
+						return true
+					}
+				}
+				return false
+			}
+			return true
+		}
 		bad := ReachInstr(fn, ci, func(in ssa.Instruction) bool {
 			ret, ok := in.(*ssa.Return)
 			if !ok || len(ret.Results) != 2 {
 				return false
 			}
-			b, isC := constBool(retVal(ret, 1))
-			return !(isC && b)
+			return mayBeFalse(retVal(ret, 1), 0)
 		}, nil)
 		r.Check(bad == nil, rule, fmt.Sprintf("api.checkAuth / error response #%d ends the request", n), "after http.Error every return reports handled = true",
 			"after an error response was written checkAuth can still report 'not handled': the request goes on with the anonymous token and the handler runs behind the error", posOf(c, bad))
